@@ -79,7 +79,10 @@ def main():
         "checks": checks,
         "not_applicable": na,
         "notes": "Every check: ./check <id> --tier quick|thorough, honours VERIF_SEED / VERIF_TIER, exit 0/1/2 (2 = harness error, never a VIOLATION line). "
-                 "Known and fixed findings: known_findings.json (+ witnesses under known/).  Sensitivity self-test: selftest/run.py.",
+                 "Known and fixed findings: known_findings.json (+ witnesses under known/).  Sensitivity self-test: selftest/run.py.  "
+                 "Runner layers applied to every case of every check (except where a module opts out): memory-layout variation of input arrays (VERIF_LAYOUTS=0 off) and "
+                 "object-lifecycle variation of every skmatter estimator call -- decoy clone fit on the same buffers, same-instance prefit and queries, pickle / deepcopy "
+                 "state round-trip, query-twice (vf/lifecycle.py, VERIF_LIFECYCLE=0 off; C17 opts out, DESIGN.md 8.8).",
     }
     with open(os.path.join(ROOT, "MANIFEST.json"), "w") as f:
         json.dump(man, f, indent=1)
